@@ -14,7 +14,8 @@ from checks import common, progcheck
 from checks.report import Report
 from checks.run_programs import run_jobs
 from mirsym.interp import PanicReached, Unsupported, Explorer, PathEnd
-from mirsym.values import Sc, Ref, Agg, VecV, MapV
+from mirsym.values import Sc, Ref, Agg, VecV, MapV, Slice
+from mirsym.models import some, none
 from mirsym import vmdriver
 from mirsym.vmdriver import VmRun, skel_total
 
@@ -59,15 +60,19 @@ def link_functions_stub(vmrun_new):
 class SwapAnalysis(progcheck.ProgramAnalysis):
     """old program = self.path; new program = new_path (same file for C06)"""
 
-    def __init__(self, new_path=None, pre_steps=0, voices_kept=None, voices_new=None, voices_inner=None, **kw):
+    def __init__(self, new_path=None, pre_steps=0, voices_kept=None, voices_new=None, voices_inner=None, backend='vm', variant='inprocess', **kw):
         progcheck.ProgramAnalysis.__init__(self, **kw)
+        self.backend = backend              # 'vm': <VmDspRuntime as DspRuntime>::try_hot_swap; 'wasm': the CLI payload preparation + WasmDspRuntime::try_hot_swap
+        self.variant = variant              # wasm only: how the CLI calls prepare_hot_swap_wasm_payload ('inprocess' | 'subprocess')
         self.new_path = new_path or self.path
         self.pre_steps = pre_steps
         self.voices_kept = voices_kept      # [(old child index, new child index)] untouched voices (C07)
         self.voices_new = voices_new        # [new child index] inserted voices
         self.voices_inner = voices_inner    # [(old child index, new child index)] voices edited INSIDE: their untouched call sites continue
         self.result['new_program'] = os.path.basename(self.new_path)[:-4]
-        self.result['backends'] = ['vm']
+        self.result['backends'] = [backend]
+        self.result['backend'] = backend
+        self.result['variant'] = variant if backend == 'wasm' else None
 
     def explore(self):
         r = self.result
@@ -99,6 +104,7 @@ class SwapAnalysis(progcheck.ProgramAnalysis):
             self.sparse = S
             r['sparse_symbolic_words'] = len(S)
         same_src = (self.new_path == self.path)
+        self.n_out_pair = (pj_old['io']['output'], pj_new['io']['output'])
         smt, it = self.new_interp()
         self.smt, self.it = smt, it
         ex = Explorer(smt, self.max_paths)
@@ -130,8 +136,6 @@ class SwapAnalysis(progcheck.ProgramAnalysis):
         def path(it):
             if time.time() > deadline:
                 raise Unsupported('time budget exhausted')
-            old = VmRun(it, pj_old)
-            old.run_main()
             # arbitrary pre-swap state (delay indices inside their ring, as every run leaves them)
             if an.sparse is None:
                 ws = [z3.BitVec('s_%d' % i, 64) for i in range(size_old)]
@@ -141,58 +145,44 @@ class SwapAnalysis(progcheck.ProgramAnalysis):
                 if kind == 'Delay' and ln > 0 and not isinstance(ws[addr], int):
                     it.smt.add(z3.ULT(ws[addr], ln))
                     it.smt.add(z3.ULT(ws[addr + 1], ln))
+            if an.backend == 'wasm':
+                return path_wasm(it, ws)
+            old = VmRun(it, pj_old)
+            old.run_main()
             old.state_words()[:] = [Sc('u64', w) for w in ws]
             snapshot = list(old.state_words())
             old_globals = list(old.field('global_vals').buf)
-            # VmDspRuntime::try_hot_swap: zero the input registers, then vm = vm.new_resume(prog)
-            if pj_new['io']['input']:
-                old.set_input([Sc('u64', 0)] * pj_new['io']['input'])
-            newrun = VmRun(it, pj_new)          # only used to build the Program value and the external closures
+            # the runtime that is swapped shares the machine with `old`, which keeps running as the uninterrupted oracle;
+            # <VmDspRuntime as DspRuntime>::try_hot_swap (MIR): dsp_i, zeroed input registers, vm = vm.new_resume(prog), output cache
+            newrun = VmRun(it, pj_new)          # builds the Program value and the external closures of the new program
+            newrun.rt = Agg(old.rt.ty, None, [VecV(list(f.buf)) if type(f) is VecV else f for f in old.rt.fields])
+            newrun.rtref = Ref([newrun.rt], 0)
             it.hooks['link_functions'] = link_functions_stub(newrun)
             try:
-                newm = it.call('Machine::new_resume', [old.mref, newrun.prog], None)
+                swapped = newrun.try_hot_swap(newrun.prog)
             finally:
                 it.hooks.pop('link_functions', None)
-            newrun.machine = newm
-            newrun.mref = Ref([newm], 0)
+            r['checks'] += 1
+            if not (isinstance(swapped.v, int) and swapped.v == 1):
+                raise SwapViolation('try_hot_swap refused the new program (returned %r)' % (swapped.v,))
+            if newrun.machine is old.machine:
+                raise SwapViolation('try_hot_swap left the old machine in place')
+            dsp_i_new = newrun.rt.fields[it.layouts.find_struct('VmDspRuntime').fields.index('dsp_i')]
+            if not (isinstance(dsp_i_new.v, int) and dsp_i_new.v == pj_new['dsp_index']):
+                raise SwapViolation('dsp function index after the swap is %r, the new program has dsp at %r' % (dsp_i_new.v, pj_new['dsp_index']))
             nstate = newrun.state_words()
             r['checks'] += 1
             if len(nstate) != size_new:
                 raise SwapViolation('state storage after the swap has %d words, the new layout has %d' % (len(nstate), size_new))
             if isinstance(newrun.state_pos().v, int) and newrun.state_pos().v != 0:
                 raise SwapViolation('state cursor after the swap is %s' % newrun.state_pos().v)
+            judge_state(it, nstate, snapshot)
             if same_src:
-                # C06: nothing may change
-                for i in range(size_old):
-                    an.require_equal(it, nstate[i], snapshot[i], 'state word %d changed by swapping to the same program' % i)
                 ng = newrun.field('global_vals').buf
                 if len(ng) != len(old_globals):
                     raise SwapViolation('global storage size changed')
                 for i, (a, b) in enumerate(zip(ng, old_globals)):
                     an.require_equal(it, a, b, 'global word %d differs after the swap' % i)
-            else:
-                ro, rn = child_ranges(skel_old), child_ranges(skel_new)
-                for (oi, ni) in an.voices_kept or []:
-                    (ao, so), (a_n, sn) = ro[oi], rn[ni]
-                    if so != sn:
-                        raise SwapViolation('untouched voice changed its state size (%d -> %d): edit script inconsistent' % (so, sn))
-                    for k in range(so):
-                        an.require_equal(it, nstate[a_n + k], snapshot[ao + k], 'untouched voice old#%d -> new#%d lost state word %d' % (oi, ni, k))
-                for (oi, ni) in an.voices_inner or []:
-                    # call sites whose (kind, size, depth) occurs exactly once in the old and once in the new version of the voice
-                    # are the untouched ones (the scripts only use voices whose sites are pairwise distinguishable)
-                    so_, sn_ = site_list(skel_old['children'][oi]), site_list(skel_new['children'][ni])
-                    for (ra, words, sig) in so_:
-                        mo = [x for x in so_ if x[2] == sig]
-                        mn = [x for x in sn_ if x[2] == sig]
-                        if len(mo) == 1 and len(mn) == 1:
-                            for k in range(words):
-                                an.require_equal(it, nstate[rn[ni][0] + mn[0][0] + k], snapshot[ro[oi][0] + ra + k],
-                                                 'untouched call site %s inside edited voice old#%d -> new#%d lost state word %d' % (sig[0], oi, ni, k))
-                for ni in an.voices_new or []:
-                    a_n, sn = rn[ni]
-                    for k in range(sn):
-                        an.require_equal(it, nstate[a_n + k], Sc('u64', 0), 'new voice #%d does not start from zero (word %d)' % (ni, k))
             # the next sample: same transition as the un-swapped machine (C06) / untouched channels continue (C07)
             n_in_o, n_in_n = pj_old['io']['input'], pj_new['io']['input']
             ins = [Sc('u64', z3.BitVec('in_0_%d' % c, 64)) for c in range(max(n_in_o, n_in_n))]
@@ -204,18 +194,137 @@ class SwapAnalysis(progcheck.ProgramAnalysis):
             _, o_old = old.run_dsp()
             newrun.set_input(ins[:n_in_n])
             _, o_new = newrun.run_dsp()
+            judge_step(it, o_old, o_new, old.state_words(), newrun.state_words())
+            return None
+
+        def judge_state(it, nstate, snapshot):
+            """the state words right after the swap (nstate: the new storage; words beyond its length read as zero)"""
+            def nw(i):
+                return nstate[i] if i < len(nstate) else Sc('u64', 0)
+            if same_src:
+                # C06: nothing may change
+                for i in range(size_old):
+                    an.require_equal(it, nw(i), snapshot[i], 'state word %d changed by swapping to the same program' % i)
+                return
+            ro, rn = child_ranges(skel_old), child_ranges(skel_new)
+            for (oi, ni) in an.voices_kept or []:
+                (ao, so), (a_n, sn) = ro[oi], rn[ni]
+                if so != sn:
+                    raise SwapViolation('untouched voice changed its state size (%d -> %d): edit script inconsistent' % (so, sn))
+                for k in range(so):
+                    an.require_equal(it, nw(a_n + k), snapshot[ao + k], 'untouched voice old#%d -> new#%d lost state word %d' % (oi, ni, k))
+            for (oi, ni) in an.voices_inner or []:
+                # call sites whose (kind, size, depth) occurs exactly once in the old and once in the new version of the voice
+                # are the untouched ones (the scripts only use voices whose sites are pairwise distinguishable)
+                so_, sn_ = site_list(skel_old['children'][oi]), site_list(skel_new['children'][ni])
+                for (ra, words, sig) in so_:
+                    mo = [x for x in so_ if x[2] == sig]
+                    mn = [x for x in sn_ if x[2] == sig]
+                    if len(mo) == 1 and len(mn) == 1:
+                        for k in range(words):
+                            an.require_equal(it, nw(rn[ni][0] + mn[0][0] + k), snapshot[ro[oi][0] + ra + k],
+                                             'untouched call site %s inside edited voice old#%d -> new#%d lost state word %d' % (sig[0], oi, ni, k))
+            for ni in an.voices_new or []:
+                a_n, sn = rn[ni]
+                for k in range(sn):
+                    an.require_equal(it, nw(a_n + k), Sc('u64', 0), 'new voice #%d does not start from zero (word %d)' % (ni, k))
+
+        def judge_step(it, o_old, o_new, st_old, st_new):
             if same_src:
                 if len(o_old) != len(o_new):
                     raise SwapViolation('output width changed')
                 for c, (a, b) in enumerate(zip(o_old, o_new)):
                     an.require_equal(it, b, a, 'first sample after the swap differs from the uninterrupted run (channel %d)' % c)
-                for i, (a, b) in enumerate(zip(old.state_words(), newrun.state_words())):
+                n = max(len(st_old), len(st_new))
+                for i in range(n):
+                    a = st_old[i] if i < len(st_old) else Sc('u64', 0)
+                    b = st_new[i] if i < len(st_new) else Sc('u64', 0)
                     an.require_equal(it, b, a, 'state word %d differs one sample after the swap' % i)
             else:
                 for (oi, ni) in an.voices_kept or []:
                     if oi < len(o_old) and ni < len(o_new):
                         an.require_equal(it, o_new[ni], o_old[oi], 'output of untouched voice old#%d -> new#%d differs from the uninterrupted run' % (oi, ni))
+
+        def path_wasm(it, ws):
+            """WASM runtime: the CLI prepares the payload off the audio thread (FileRunner::prepare_hot_swap_wasm_payload:
+            prewarm = fresh engine + run main, patch plan from the remembered skeleton), the audio thread commits it with
+            <WasmDspRuntime as DspRuntime>::try_hot_swap.  All of it is the MIR of the real functions; stubs: WasmEngine::new /
+            load_module (wasmtime compile + instantiate -> a fresh wasmsym instance of the NEW module) and the WasmModule surface."""
+            from wasmsym.driver import WasmRun, ModuleV, FuncV, _struct, load_module
+            from wasmsym.exec import Instance
+            from wasmsym.hostwasm import Host
+            from mirsym.models import ok
+            from mirsym.values import Opaque, UNIT
+            from mirsym.vmdriver import skel_value
+            wj_old, wj_new = an.cj['wasm'], cj2['wasm']
+            wold = WasmRun(it, wj_old)
+            wold.run_main()
+            wold.host.state_words()[:] = [Sc('u64', w) for w in ws]
+            snapshot = list(wold.host.state_words())
+            # the uninterrupted oracle keeps the old engine (try_hot_swap moves it to the retire channel, it is not dropped)
+            worc = WasmRun.__new__(WasmRun)
+            worc.__dict__.update(wold.__dict__)
+            worc.rt = Agg(wold.rt.ty, None, [VecV(list(f.buf)) if type(f) is VecV else f for f in wold.rt.fields])
+            worc.rtref = Ref([worc.rt], 0)
+
+            def eng_new(it_, args, fr, callee):
+                return ok(_struct(it, 'WasmEngine', runtime=Opaque('WasmRuntime'), current_module=none(), dsp_func=none()))
+
+            def load_mod(it_, args, fr, callee):
+                e = args[0]
+                while type(e) is Ref:
+                    e = e.cont[e.key]
+                m = load_module(wj_new['wat'])
+                h = Host(it, 48000.0)
+                mv = ModuleV(Instance(m, it, h), h, m)
+                fs = it.layouts.find_struct('WasmEngine').fields
+                e.fields[fs.index('current_module')] = some(mv)
+                e.fields[fs.index('dsp_func')] = some(FuncV('dsp')) if 'dsp' in m.exports else none()
+                return ok(UNIT)
+            it.models.extra['WasmEngine::new'] = eng_new
+            it.models.extra['WasmEngine::load_module'] = load_mod
+            it.models.note('STUB WasmEngine::new / load_module (wasmtime compile + instantiate): fresh wasmsym instance of the new module')
+            sk_old_v = some(skel_value(it, wj_old['dsp_state_skeleton'])) if wj_old.get('dsp_state_skeleton') is not None else none()
+            oldprog = _struct(it, 'OldWasmProgram', dsp_state_skeleton=sk_old_v, ext_fns=VecV([]), plugin_fns=none())
+            runner = _struct(it, 'FileRunner', tx_compiler=Opaque('Sender<CompileRequest>'), rx_compiler=Opaque('Receiver<Response>'), tx_prog=none(),
+                             fullpath=Opaque('PathBuf'), use_wasm=Sc('bool', 1), old_program=it.call('std::sync::Mutex::new', [some(oldprog)], None),
+                             retired_engine_receiver=none())
+            if an.variant == 'subprocess':
+                # recompile_file (native, WASM backend): try_compile_wasm_in_subprocess hands back bytes only
+                pargs = [Ref([runner], 0), VecV([]), none(), none()]
+            else:
+                # recompile_file_inprocess: Response::WasmModule(output)
+                sk_new_v = some(skel_value(it, wj_new['dsp_state_skeleton'])) if wj_new.get('dsp_state_skeleton') is not None else none()
+                pargs = [Ref([runner], 0), VecV([]), sk_new_v, some(Slice([], 0, 0))]
+            pl = it.call('FileRunner::prepare_hot_swap_wasm_payload', pargs, None)
+            r['checks'] += 1
+            if pl.variant != 0:
+                raise SwapViolation('prepare_hot_swap_wasm_payload failed for a program that compiles: %r' % (pl.fields[0],))
+            swapped = wold.try_hot_swap(pl.fields[0])
+            if not (isinstance(swapped.v, int) and swapped.v == 1):
+                raise SwapViolation('try_hot_swap refused the new module (returned %r)' % (swapped.v,))
+            nhost = wold.cur_host()
+            if nhost is worc.cur_host():
+                raise SwapViolation('try_hot_swap left the old engine in place')
+            nstate = list(nhost.state_words())
+            if len(nstate) > size_new:
+                raise SwapViolation('state storage after the swap has %d words, the new layout has %d' % (len(nstate), size_new))
+            if isinstance(nhost.state_pos().v, int) and nhost.state_pos().v != 0:
+                raise SwapViolation('state cursor after the swap is %s' % nhost.state_pos().v)
+            an.cur_swap_verbatim = (not same_src) and len(nstate) == len(snapshot) and all(x is y or (isinstance(x.v, int) and x.v == y.v) or (not isinstance(x.v, int) and not isinstance(y.v, int) and x.v.eq(y.v)) for x, y in zip(nstate, snapshot))
+            judge_state(it, nstate, snapshot)
+            n_in_o = wj_old['io']['input'] if wj_old.get('io') else 0
+            n_in_n = wj_new['io']['input'] if wj_new.get('io') else 0
+            ins = [Sc('u64', z3.BitVec('in_0_%d' % c, 64)) for c in range(max(n_in_o, n_in_n))]
+            now = Sc('u64', z3.BitVec('now0', 64))
+            it.smt.add(z3.ULT(now.v, 1 << 52))
+            worc.set_input(ins[:n_in_o])
+            _, o_old = worc.run_dsp(now)
+            wold.set_input(ins[:n_in_n])
+            _, o_new = wold.run_dsp(now)
+            judge_step(it, o_old, o_new, worc.cur_host().state_words(), wold.cur_host().state_words())
             return None
+
         res = ex.explore(it, path)
         r['paths'] = len(res)
         r['truncated'] = ex.truncated
@@ -237,6 +346,11 @@ class SwapAnalysis(progcheck.ProgramAnalysis):
 
     def record_panic(self, f):
         progcheck.ProgramAnalysis.record_panic(self, f)
+        if self.result['panics']:
+            self.result['panics'][-1]['backend'] = self.backend
+            self.result['panics'][-1]['variant'] = self.variant if self.backend == 'wasm' else None
+            self.result['panics'][-1]['swap_verbatim'] = bool(getattr(self, 'cur_swap_verbatim', False))
+            self.result['panics'][-1]['n_out'] = getattr(self, 'n_out_pair', None)
         if getattr(self, 'sparse', None) is not None and self.result['panics']:
             d = self.result['panics'][-1]
             init = d.get('init_state')
@@ -269,16 +383,17 @@ class SwapAnalysis(progcheck.ProgramAnalysis):
         raise e
 
 
-def confirm_swap(old_path, new_path, d, kept, new_voices, skel_ranges):
-    """replay on the real VM: n=1 sample from the witness state, swap, 1 more sample; compare with the uninterrupted run"""
+def confirm_swap(old_path, new_path, d, kept, new_voices, skel_ranges, backend='vm', variant='inprocess'):
+    """replay on the real runtime (VM, or WASM with the payload prepared the way the CLI does it): 1 sample from the witness state
+    with the swap in front of it, compared with the uninterrupted run"""
     init = d.get('init_state')
     ins = d.get('inputs') or [[]]
     row = ins[0] if ins else []
-    base = dict(src_path=old_path, backend='vm', steps=1, inputs=[row], init_state=init, now_start=d.get('now0', 0), timeout_s=20)
+    base = dict(src_path=old_path, backend=backend, steps=1, inputs=[row], init_state=init, now_start=d.get('now0', 0), timeout_s=20)
     out = {}
     try:
-        plain = common.replay(dict(base))['vm']
-        swapped = common.replay(dict(base, swaps=[dict(at_step=0, src_path=new_path)]))['vm']
+        plain = common.replay(dict(base))[backend]
+        swapped = common.replay(dict(base, swaps=[dict(at_step=0, src_path=new_path, variant=variant)]))[backend]
     except Exception as e:
         return False, dict(error=repr(e))
     out['plain'] = dict(outputs=plain.get('outputs'), state=plain.get('state_after'), panic=plain.get('panic'))
@@ -290,7 +405,10 @@ def confirm_swap(old_path, new_path, d, kept, new_voices, skel_ranges):
         if po != so and not all(progcheck.same_word(a, b) for a, b in zip(po[0], so[0])):
             return True, out
         ps, ss = plain.get('state_after') or [[]], swapped.get('state_after') or [[]]
-        if len(ps[0]) != len(ss[0]) or not all(progcheck.same_word(a, b) for a, b in zip(ps[0], ss[0])):
+        n = max(len(ps[0]), len(ss[0]))
+        if backend == 'vm' and len(ps[0]) != len(ss[0]):
+            return True, out
+        if not all(progcheck.same_word(a, b) for a, b in zip(ps[0] + [0] * (n - len(ps[0])), ss[0] + [0] * (n - len(ss[0])))):
             return True, out
         return False, out
     for (oi, ni) in kept or []:
@@ -300,19 +418,25 @@ def confirm_swap(old_path, new_path, d, kept, new_voices, skel_ranges):
     return False, out
 
 
+# the three hot-swap routes of the shipped code: VM runtime; WASM runtime with the payload prepared as the native CLI does it for the
+# WASM backend (subprocess compile: bytes only); WASM runtime with the payload of recompile_file_inprocess (skeleton passed along)
+BACKENDS = (('vm', 'inprocess'), ('wasm', 'subprocess'), ('wasm', 'inprocess'))
+
+
 def run(tier, seed, pid='C06'):
     quick = tier == 'quick'
     rep = Report(pid, tier, seed, 'model_checking')
     common.build_mmdump()
-    mirs = [common.dump_mir('mimium_lang')[0], common.dump_mir('state_tree')[0]]
+    mirs = common.prog_mirs(('mimium_cli',))
     files = [f for f in common.corpus_files(['st', 'ct', 'cl', 'gn', 'fx'], tier, seed)]
     ldir = os.path.join(common.VERIF, 'corpus_large')       # states > 2^16 words, analysed in sparse mode (see SwapAnalysis.explore)
     if pid == 'C06' and os.path.isdir(ldir) and not os.environ.get('VERIF_ONLY'):
         files += [os.path.join(ldir, fn) for fn in sorted(os.listdir(ldir)) if fn.endswith('.mmm')]
     budget = 90 if quick else 400
     qto = 5000 if quick else 30000
-    jobs = [('analysis', dict(cls=('checks.c06', 'SwapAnalysis'), path=f, mir_paths=mirs, steps=1, mode='inductive',
-                              query_timeout_ms=qto, time_budget_s=budget, seed=seed)) for f in files]
+    jobs = [('analysis', dict(cls=('checks.c06', 'SwapAnalysis'), path=f, mir_paths=mirs, steps=1, mode='inductive', backend=be, variant=var,
+                              query_timeout_ms=qto, time_budget_s=budget, seed=seed)) for f in files for (be, var) in BACKENDS
+            if be == 'vm' or '/corpus_large/' not in f]
     res = run_jobs(jobs)
     npaths = nchecks = 0
     for r in res:
@@ -329,21 +453,25 @@ def run(tier, seed, pid='C06'):
                 rep.inconclusive.append('%s: path ended by a crash obligation (%s): see C03' % (r['program'], d['msg'][:70]))
                 continue
             rep.replays += 1
-            ok, detail = confirm_swap(path, path, d, None, None, None)
-            rec = dict(program=r['program'], msg=d['msg'], model=dict(inputs=d.get('inputs'), init_state=d.get('init_state'), now0=d.get('now0')), replay=detail)
+            be, var = r.get('backend', 'vm'), r.get('variant') or 'inprocess'
+            ok, detail = confirm_swap(path, path, d, None, None, None, backend=be, variant=var)
+            rec = dict(program=r['program'], backend=be, variant=var, msg=d['msg'], model=dict(inputs=d.get('inputs'), init_state=d.get('init_state'), now0=d.get('now0')), replay=detail)
             if ok:
                 done = True
-                rep.finding(r['program'], rec)
+                rep.finding(r['program'] if be == 'vm' else '%s/wasm-%s' % (r['program'], var), rec)
             else:
                 rep.inconclusive.append('%s: "%s" has a model that the real VM does not exhibit' % (r['program'], d['msg'][:80]))
         if len(rep.samples) < 8:
-            rep.samples.append(dict(program=r['program'], feasible_paths=r['paths'], equalities_checked=r.get('checks'), decided_syntactically=r.get('checks_trivial'), state_words=r.get('state_size')))
+            rep.samples.append(dict(program=r['program'], backend=r.get('backend'), variant=r.get('variant'), feasible_paths=r['paths'], equalities_checked=r.get('checks'), decided_syntactically=r.get('checks_trivial'), state_words=r.get('state_size')))
     cov = dict(states=max(1, npaths), transitions=max(1, rep.stats['queries']), traces_validated_against_impl=rep.replays, programs=len(rep.programs),
                equalities_checked=nchecks,
                bounds='stateful + control corpus programs; swap point = arbitrary symbolic state (all state words; delay indices < len), so every split point n is covered by one inductive query; '
-                      'one dsp step after the swap with symbolic inputs compared with the un-swapped machine (repeated swaps follow by induction); VM path only')
+                      'one dsp step after the swap with symbolic inputs compared with the un-swapped runtime (repeated swaps follow by induction); '
+                      'three routes per program: <VmDspRuntime as DspRuntime>::try_hot_swap; FileRunner::prepare_hot_swap_wasm_payload (as called by the native CLI: '
+                      'bytes only / as called by recompile_file_inprocess: with skeleton) + <WasmDspRuntime as DspRuntime>::try_hot_swap')
     assumptions = ['`now` continuing is a property of the driver sample counter (not reset by try_hot_swap): stubbed as the same symbolic counter on both machines',
                    'Machine::link_functions is stubbed (string interner / plugin lookup): STUB in stubs_used',
-                   'WASM hot swap (WasmDspRuntime::try_hot_swap: engine replacement, channels) is not encoded; only the VM path and the shared state-tree plan layer are decided here',
+                   'WASM: WasmEngine::new / load_module (wasmtime compile + instantiate) are stubbed by a fresh wasmsym instance of the new module; the WasmModule surface (globals, memory, calls) is served by wasmsym; the hand-over between the CLI thread and the audio thread (mpsc channel, engine retirement) is sequentialised',
+                   'replay of WASM witnesses uses a replica of the three lines of prepare_hot_swap_wasm_payload in mmdump (mimium-cli is not linked into the helper) with the real WasmDspRuntime::try_hot_swap',
                    'program dimension = finite corpus']
     return rep.finish(cov, assumptions)
